@@ -406,6 +406,7 @@ inductive Ev where
   | spin (i k : Nat)
   | wcancel (i k : Nat)
   | wdstream (i k : Nat)
+  | nextw (i : Nat)
   deriving Repr
 
 /-- what the program sees -/
@@ -746,6 +747,13 @@ def evWDstream (w : World) (i k : Nat) : World × Out :=
         if k = 0 || 1024 < k || s.kind == .file || s.eof then (w, .bad)
         else ((evWrite (evDstream w i).1 i k).1, .ok)
 
+/-- await the next item of the stream: poll, let the driver run, poll again. A second `Pending` means
+    the op is armed with nothing to read (further polls change nothing until another event) -/
+def evNextW (w : World) (i : Nat) : World × Out :=
+  match evNext w i with
+  | (w1, .pending) => evNext w1 i
+  | r => r
+
 def step (w : World) (e : Ev) : World × Out :=
   if w.dead then (w, .dead)
   else
@@ -768,6 +776,7 @@ def step (w : World) (e : Ev) : World × Out :=
     | .spin i k => evSpin w i k
     | .wcancel i k => evWCancel w i k
     | .wdstream i k => evWDstream w i k
+    | .nextw i => evNextW w i
 
 def run (w : World) : List Ev → World
   | [] => w
